@@ -43,6 +43,12 @@ func VH_C15(p []int) {
 		target, usable = vhAliasStack(src.s), false
 	case 9:
 		target, usable = &src.s, false
+	case 10:
+		var p *Stack
+		target, usable = p, false
+	case 11:
+		var p *vhAliasStack
+		target, usable = p, false
 	}
 	free := -1
 	if dst.cfg.cap != 0 {
